@@ -19,18 +19,40 @@ func init() {
 func mwLargeReplay(in io.Reader, raw bool, args []string) (*Summary, error) {
 	sum := &Summary{Rule: "one case per (n1, n2) emitted by TLC with the exact BigInt count vector of the untied null distribution; UDist{n1,n2}.PMF/CDF are compared at ~80 points spread over the range (both halves, the centre, the ends) and MannWhitneyUTest is called on random untied samples whose U is counted pair by pair; non-trivial = n1, n2 >= 20"}
 	rng := rand.New(rand.NewSource(baseSeed))
-	err := forEachCase(in, raw, func(c json.RawMessage) {
+	handle := func(c json.RawMessage) {
 		var lc struct {
-			N1  int     `json:"n1"`
-			N2  int     `json:"n2"`
-			Cnt [][]int `json:"cnt"`
-			Den []int   `json:"den"`
+			Kind  string  `json:"kind"`
+			N1    int     `json:"n1"`
+			N2    int     `json:"n2"`
+			A     int     `json:"a"`
+			B     int     `json:"b"`
+			Cnt   [][]int `json:"cnt"`
+			Den   []int   `json:"den"`
+			Items []struct {
+				R    int   `json:"r"`
+				TwoU int   `json:"twoU"`
+				Mult []int `json:"mult"`
+			} `json:"items"`
 		}
 		if e := json.Unmarshal(c, &lc); e != nil || lc.N1 == 0 {
 			sum.viol("machinery", c, "bad case: %v", e)
 			return
 		}
 		sum.Cases++
+		if lc.Kind == "tied2" {
+			mwTied2(sum, lc.A, lc.B, lc.N1, lc.N2, fromLimbs(lc.Den), func(yield func(r, twoU int, mult *big.Int)) {
+				for _, it := range lc.Items {
+					yield(it.R, it.TwoU, fromLimbs(it.Mult))
+				}
+			})
+			return
+		}
+		// sizes beyond the default exact limit (lopsided pools): the limit is raised for the duration of the case
+		if lc.N1 > stats.MannWhitneyExactLimit || lc.N2 > stats.MannWhitneyExactLimit {
+			save := stats.MannWhitneyExactLimit
+			stats.MannWhitneyExactLimit = 1000
+			defer func() { stats.MannWhitneyExactLimit = save }()
+		}
 		small := json.RawMessage(`{"n1":` + itoa(lc.N1) + `,"n2":` + itoa(lc.N2) + `}`)
 		if lc.N1 >= 20 && lc.N2 >= 20 {
 			sum.Nontrivial++
@@ -135,6 +157,96 @@ func mwLargeReplay(in io.Reader, raw bool, args []string) (*Summary, error) {
 				}
 			}
 		}
+	}
+	// every case once in the order TLC emits them, then once more in reverse order: whatever the library keeps between
+	// calls (tables, caches keyed by the sizes) has then been filled by smaller AND by larger cases before a case is evaluated
+	var keep []json.RawMessage
+	err := forEachCase(in, raw, func(c json.RawMessage) {
+		keep = append(keep, append(json.RawMessage{}, c...))
+		handle(c)
 	})
+	for i := len(keep) - 1; i >= 0; i-- {
+		handle(keep[i])
+	}
 	return sum, err
+}
+
+// mwTied2: a pool of a copies of one value and b copies of a larger one, n1 of them in the first sample.  The distribution of U
+// has one atom per r (the number of smaller values in the first sample), with C(a,r) C(b,n1-r) of the C(a+b,n1) relabellings.
+func mwTied2(sum *Summary, a, b, n1, n2 int, den *big.Int, items func(func(r, twoU int, mult *big.Int))) {
+	small := json.RawMessage(`{"tied2":[` + itoa(a) + `,` + itoa(b) + `,` + itoa(n1) + `]}`)
+	sum.Nontrivial++
+	sum.sample(small)
+	defer func() {
+		if r := recover(); r != nil {
+			sum.viol("panic", small, "panic: %v", r)
+		}
+	}()
+	type atom struct {
+		r, twoU int
+		m       *big.Int
+	}
+	var at []atom
+	items(func(r, twoU int, m *big.Int) { at = append(at, atom{r, twoU, m}) })
+	// ascending in U
+	for i, j := 0, len(at)-1; i < j; i, j = i+1, j-1 {
+		at[i], at[j] = at[j], at[i]
+	}
+	d := stats.UDist{N1: n1, N2: n2, T: []int{a, b}}
+	saveE, saveT := stats.MannWhitneyExactLimit, stats.MannWhitneyTiesExactLimit
+	stats.MannWhitneyExactLimit, stats.MannWhitneyTiesExactLimit = 1000, 1000
+	defer func() { stats.MannWhitneyExactLimit, stats.MannWhitneyTiesExactLimit = saveE, saveT }()
+	cum := new(big.Int)
+	step := 1
+	if len(at) > 60 {
+		step = len(at) / 60
+	}
+	for i, t := range at {
+		cum = new(big.Int).Add(cum, t.m)
+		if i%step != 0 && i != len(at)-1 && i > 3 {
+			continue
+		}
+		u := float64(t.twoU) / 2
+		wc := new(big.Rat).SetFrac(cum, den)
+		wp := new(big.Rat).SetFrac(t.m, den)
+		sum.Checks++
+		if got := d.CDF(u); !closeRat(got, wc, 1e-12, 1e-9) {
+			sum.viol("CDF-large", small, "UDist{%d,%d,[%d %d]}.CDF(%v)=%.15g want %.15g", n1, n2, a, b, u, got, rf(wc))
+		}
+		if got := d.PMF(u); !closeRat(got, wp, 1e-12, 1e-9) {
+			sum.viol("PMF-large", small, "UDist{%d,%d,[%d %d]}.PMF(%v)=%.15g want %.15g", n1, n2, a, b, u, got, rf(wp))
+		}
+		if i+1 < len(at) && at[i+1].twoU > t.twoU+1 { // between two atoms: no mass, the CDF of the lower one
+			if got := d.PMF(u + 0.5); got != 0 && !closeRat(got, new(big.Rat), 1e-12, 0) {
+				sum.viol("PMF-large", small, "UDist{%d,%d,[%d %d]}.PMF(%v)=%.15g want 0", n1, n2, a, b, u+0.5, got)
+			}
+			if got := d.CDF(u + 0.5); !closeRat(got, wc, 1e-12, 1e-9) {
+				sum.viol("CDF-large", small, "UDist{%d,%d,[%d %d]}.CDF(%v)=%.15g want %.15g", n1, n2, a, b, u+0.5, got, rf(wc))
+			}
+		}
+		// the test itself on such samples (exact method, limits raised)
+		if i%(4*step) == 0 || i == len(at)-1 {
+			x1, x2 := make([]float64, 0, n1), make([]float64, 0, n2)
+			for k := 0; k < n1; k++ {
+				if k < t.r {
+					x1 = append(x1, 2.5)
+				} else {
+					x1 = append(x1, 7.25)
+				}
+			}
+			for k := 0; k < n2; k++ {
+				if k < a-t.r {
+					x2 = append(x2, 2.5)
+				} else {
+					x2 = append(x2, 7.25)
+				}
+			}
+			res, err := stats.MannWhitneyUTest(x1, x2, stats.LocationLess)
+			if err != nil || res == nil {
+				sum.viol("error", small, "r=%d: unexpected error %v", t.r, err)
+			} else if res.U != u || !closeRat(res.P, wc, 1e-12, 1e-9) {
+				sum.viol("P-large", small, "two-value pool %d+%d, %d of the smaller in sample 1 (sizes %d, %d): U=%v P(less)=%.15g want %v %.15g", a, b, t.r, n1, n2, res.U, res.P, u, rf(wc))
+			}
+		}
+	}
 }
